@@ -1,6 +1,7 @@
 (* C10 -- Asking for help or version always wins and never runs the program.
    Property theorems only; proofs live in Lemmas/. *)
-From BpafLemmas Require Import Tac Reach Ledger NoLoss C05Lemmas OkReach OkLaws HelpLaws.
+From BpafModel Require Import Wf.
+From BpafLemmas Require Import Tac Reach Ledger NoLoss C05Lemmas OkReach OkLaws HelpLaws TotalLaws HelpWins.
 
 (* Never a value: for EVERY parser, if the line holds a live item that none of the parser's own
    consumers accepts -- such as `--help`/`-h`/`--version`, or the configured replacements, whenever
@@ -45,6 +46,62 @@ Theorem C10_help_found :
       run_sub_body env inf m s (r, s1) = (SFail (FStdout (HHelp (path s3) inf m detailed)), s3).
 Proof. exact help_found. Qed.
 Print Assumptions C10_help_found.
+
+(* FULL STATEMENT for definitions without subcommands and adjacent groups (`memb`: every other combinator,
+   arbitrarily nested): if the help flag stands on the line as an item of its own -- and no item of the parser
+   uses its names -- the outcome is the help of this level, WHATEVER else is missing, duplicated or malformed:
+   only subcommands produce a ready-made failure, the parser neither panics nor loops (C04_total), nobody can
+   consume the help item and the scope is kept, so Info::eval finds it; a successful parse has a leftover and
+   `remaining` (exact) is not zero *)
+Theorem C10_help_wins_without_subcommands :
+  forall feat env p inf name argv st i a,
+    memb p = true -> oko (Options p inf) = true ->
+    kinds_ok (fun k => accepts k a = false) p ->
+    initial_state (Options p inf) name argv = (st, None) ->
+    nth_error (items st) i = Some a -> live st i ->
+    matches_arg (i_help_arg inf) false a = true ->
+    exists pth detailed,
+      run_inner feat env (Options p inf) name argv = OutStdout (HHelp pth inf (meta_of p) detailed).
+Proof. exact help_wins_run_inner. Qed.
+Print Assumptions C10_help_wins_without_subcommands.
+
+(* the same for one command level evaluated from any well-formed state (a subcommand's own parser) *)
+Theorem C10_help_wins_level :
+  forall env p inf s i a,
+    memb p = true -> okp p = true -> invariant_ok (meta_of p) = true ->
+    kinds_ok (fun k => accepts k a = false) p ->
+    G s -> nth_error (items s) i = Some a -> live s i -> in_scope s i = true ->
+    matches_arg (i_help_arg inf) false a = true ->
+    exists detailed s3,
+      run_sub env (Options p inf) s = (SFail (FStdout (HHelp (path s3) inf (meta_of p) detailed)), s3).
+Proof. exact help_wins. Qed.
+Print Assumptions C10_help_wins_level.
+
+(* the version flag behaves the same way when a version was configured (and the help flag is not on the line) *)
+Theorem C10_version_wins_level :
+  forall env p inf s i a v,
+    memb p = true -> okp p = true ->
+    kinds_ok (fun k => accepts k a = false) p ->
+    G s -> nth_error (items s) i = Some a -> live s i -> in_scope s i = true ->
+    i_version inf = Some v -> matches_arg (i_version_arg inf) false a = true ->
+    n_env (i_help_arg inf) = [] ->
+    (forall j b, nth_error (items s) j = Some b -> live s j -> matches_arg (i_help_arg inf) false b = false) ->
+    exists s3, run_sub env (Options p inf) s = (SFail (FStdout (HVersion v)), s3).
+Proof. exact version_wins. Qed.
+Print Assumptions C10_version_wins_level.
+
+(* non-vacuity: a required argument is missing, a value is malformed, an unknown flag and a duplicate are on
+   the line -- and `--help` *)
+Example C10_example_help_wins :
+  let p := PCon (PCons (PArg (mkNamed [] [[110]%N] [] None) [78%N] TyU32 false)
+                (PCons (PFlag (mkNamed [118%N] [] [] None) (VBool true) (Some (VBool false)))
+                (PCons (PArg (mkNamed [] [[114;101;113]%N] [] None) [82%N] TyString false) PNil))) in
+  memb p = true /\ oko (Options p default_info) = true /\
+  exists pth d,
+    run_inner (mkFeat true true false) (fun _ => None) (Options p default_info) None
+              [[45;45;110;61;120]%N; [45;118]%N; [45;118]%N; [45;45;98;111;103;117;115]%N; [45;45;104;101;108;112]%N]
+    = OutStdout (HHelp pth default_info (meta_of p) d).
+Proof. cbv zeta. split; [reflexivity|]. split; [vm_compute; reflexivity|]. eexists. eexists. vm_compute. reflexivity. Qed.
 
 (* The unrestricted statement ("regardless of what else is missing") is FALSE of the faithful
    model and of the code; two witnesses, replayed on the implementation = known findings. *)
